@@ -1540,3 +1540,41 @@ func (c *Ctx) keptLinesMoveRule(rule string) {
 	}
 	r.Check(rule, FnKey(fn)+":kept-lines-end-where-the-group-ended", c.Pos(fn.Pos()), ok, "the kept lines of a comment group keep their places when lines are removed: a doc comment whose last line is a directive ends one line above its declaration afterwards and is printed detached from it ("+got+")")
 }
+
+// filterAfterLookupsRule (C11/C03): the directive filter moves comment lines, so it runs after the last lookup by position.
+func (c *Ctx) filterAfterLookupsRule(rule string) {
+	r := c.R
+	r.Rule(rule, "GenerateBaseCode: nothing looks an AST node up by position (util.ToAstNode → astutil.PathEnclosingInterval, util.InsertComment) after util.RemoveMatchComments has run: the filter re-places the comment lines it keeps (C11-13), and a long kept line moved onto the place of a short directive line extends over the nodes behind it – a lookup by position then stops at the file node, the markers are planted at position 0 and a well-formed setup file is rejected (`expected 'package', found 'func'`)")
+	fn := c.MustMethod(rule, "/pkg/parser", "Parser", "GenerateBaseCode")
+	if fn == nil {
+		return
+	}
+	strips := c.CallsIn(fn, pUtil+"RemoveMatchComments", false)
+	if len(strips) == 0 {
+		r.Undecided(rule, FnKey(fn)+":strip", "no call of util.RemoveMatchComments found")
+		return
+	}
+	rc := c.Reach(fn)
+	ok, why := true, ""
+	n := 0
+	for _, name := range []string{pUtil + "ToAstNode", pUtil + "InsertComment", "golang.org/x/tools/go/ast/astutil.PathEnclosingInterval"} {
+		for _, lk := range c.CallsIn(fn, name, false) {
+			n++
+			for _, s := range strips {
+				sb, lb := s.Instr.Block(), lk.Instr.Block()
+				after := false
+				if sb == lb {
+					after = indexIn(sb, s.Instr) < indexIn(lb, lk.Instr)
+				} else {
+					after = rc.CanReach(sb, lb)
+				}
+				if after {
+					ok = false
+					why = shortCallee(name) + " at " + c.Pos(lk.Pos())
+				}
+			}
+		}
+	}
+	r.Check(rule, FnKey(fn)+":filter-after-lookups", c.Pos(strips[0].Pos()), ok, "a lookup by position runs after the directive filter has moved comment lines: "+why)
+	r.Floor(rule, "position lookups in GenerateBaseCode", n, 2)
+}
